@@ -180,7 +180,14 @@ func newFilter(dataDir string, table []entry) (d *filtering.DNSFilter, err error
 	for i, e := range table {
 		rws[i] = &filtering.LegacyRewrite{Domain: e.Domain, Answer: e.Answer}
 	}
-	return filtering.New(&filtering.Config{DataDir: dataDir, Rewrites: rws, BlockingMode: filtering.BlockingModeDefault}, nil)
+	conf := &filtering.Config{DataDir: dataDir, Rewrites: rws, BlockingMode: filtering.BlockingModeDefault}
+	d, err = filtering.New(conf, nil)
+	if err == nil {
+		// Package home hands the very same configuration object to the filter and,
+		// on every save, to WriteDiskConfig: saving must not change the table.
+		d.WriteDiskConfig(conf)
+	}
+	return d, err
 }
 
 // newServerFilter is newFilter with the additional settings a dnsforward.Server
